@@ -45,8 +45,25 @@ def directed():
                     yield "%s GMP4 ;; %s ;; %s" % (cfg, " ;; ".join(chain), " || ".join([busy] * nbusy + [final]))
 
 
+def directed_slow_discard():
+    """a discard whose worker RPC is served late (slow network, nothing lost), racing with runs that need the discarded result;
+    the racing runs may fail (C12) — the runs of the *next* phase, which race with nothing, must return the rows"""
+    srcs = ["run N0=const 2 1:1 2:2 3:3 4:4 5:5 6:6 ; OUT N0",
+            "run N0=lines 3 600 ; N1=map N0 mod5 ; N2=reduce N1 add ; OUT N2"]
+    uses = ["run N0=map R0 inc ; OUT N0", "run N0=map R0 id ; N1=reduce N0 add ; OUT N1"]
+    for cfg in ("bm M1 P2", "bm M2 P4", "bm M1 P4"):
+        for ms in (150, 400):
+            for src in srcs:
+                for nrace in (1, 2):
+                    race = " || ".join(["discard 0"] + [uses[i % 2] for i in range(nrace)])
+                    yield "%s DLY%d:Worker.Discard GMP4 ;; %s ;; %s ;; %s || scan 0" % (cfg, ms, src, race, uses[0])
+                    yield "%s DLY%d:Worker.Discard GMP4 ;; %s ;; %s ;; %s ;; %s" % (cfg, ms, src, race, uses[1], uses[0])
+
+
 def gen(r, tier):
     for c in directed():
+        yield c
+    for c in directed_slow_discard():
         yield c
     n = 150 if tier == "quick" else 3000
     for _ in range(n):
